@@ -281,6 +281,12 @@ def run(ctx):
                 after, _ = observe()
                 real_obs.append({'recorded': after, 'executed': []})
                 log.append({'step': 'wipe', 'app': r[0], 'label': r[1]})
+                # forgetting one record forgets that record: every other evolution that was applied stays recorded
+                lost = [x for x in cur if x not in after and not (x[0] == r[0] and x[1] == r[1])]
+                if lost:
+                    ctx.fail(None, 'wipe-evolution --app-label %s %s also removed the records %r: those evolutions were '
+                             'applied and are no longer recorded (the next run takes them for unapplied)'
+                             % (r[0], r[1], [x[:2] for x in lost]), {'history': log, 'before': cur, 'after': after})
         ctx.case({'history': log}, nontrivial=nruns >= 2, sample_cap=5)
         for entry in log:
             ctx.count('step:' + entry['step'])
